@@ -145,4 +145,25 @@ PROPS = {
                 '(dot: also unchanged) entries with both connection values',
         'assumptions': ['CSV/JSON quoting is encoding/csv / encoding/json (third-party)'],
     },
+    'C06': {
+        'lean': ['Netpol.Properties.C06'],
+        'families': [('exposure', 300, 12000)],
+        'shard_min': 25,
+        'accept_props': ['C06'],
+        'rule': 'NetworkPolicy-only worlds analysed with WithExposureAnalysis (10% also focused); K-diff: base report and exposed peers (protected flags, entries with selectors and connections) '
+                'against the model of the exposure analysis; P: the base report equals the run without the flag; every entry is checked against up to 160 hypothetical pods '
+                '(label assignments over the selector vocabulary plus a fresh value, existing and new namespaces, named-port declarations) added to the input as real pods: the real engine '
+                'without the flag must allow at least the reported connections on the workload side; not-protected iff the side allows everything',
+        'assumptions': ['NetworkPolicy-only inputs (the tool disables exposure with admin policies)'],
+    },
+    'C07': {
+        'lean': ['Netpol.Properties.C07'],
+        'families': [('exposure', 300, 12000)],
+        'shard_min': 25,
+        'accept_props': ['C07'],
+        'rule': 'as C06; completeness: for every protected workload, direction and hypothetical pod, what the real engine allows on the workload side is contained in the union of the '
+                'entire-cluster entry and the entries whose selectors the pod satisfies (named ports as declared by the pod), except for pods matching a selector pair of label '
+                'equalities that an existing workload satisfies (the documented omission)',
+        'assumptions': ['NetworkPolicy-only inputs'],
+    },
 }
